@@ -52,7 +52,8 @@ func loadURL(listURL string) (pemBlocks map[string][]byte, err error) {
 			continue
 		}
 
-		path := baseURL + p
+		// baseURL has a trailing slash only for a list in the root directory
+		path := strings.TrimSuffix(baseURL, "/") + "/" + p
 
 		buf, err := fetch(path)
 		if err != nil {
